@@ -1,13 +1,19 @@
 #!/bin/sh
 # tools/seedconfirm.sh <seed dir> : confirm a seeded change in a scratch copy: demo passes clean, fails patched,
-# pinned suite still passes with the patch.  Prints one line.
+# pinned suite still passes with the patch.  A change under rust/ gets the extension rebuilt (clean and patched).
+# Prints one line.
 SD="$1"
 T=$(mktemp -d /tmp/mconf.XXXXXX)
 git -C /repo archive HEAD | tar -x -C "$T"; cp /repo/src/pendulum/_pendulum*.so "$T/src/pendulum/" 2>/dev/null
 cd "$T" && git init -q . >/dev/null 2>&1
+RUST=0; grep -q '^+++ b/rust/' "$SD/patch.diff" && RUST=1
+build() { ( cd "$T/rust" && find . -name '*.rs' -exec touch {} + && PYO3_PYTHON=/venv/bin/python cargo build --release --offline >/dev/null 2>&1 \
+            && cp target/release/lib_pendulum.so ../src/pendulum/_pendulum.cpython-312-x86_64-linux-gnu.so ); }
+[ $RUST = 1 ] && build
 PYTHONPATH="$T/src" timeout 900 /venv/bin/python "$SD/demo.py" >/dev/null 2>&1; CLEAN=$?
 git apply "$SD/patch.diff" || { echo "$(basename $SD): PATCH DOES NOT APPLY"; rm -rf "$T"; exit 3; }
+[ $RUST = 1 ] && build
 PYTHONPATH="$T/src" timeout 900 /venv/bin/python "$SD/demo.py" >/dev/null 2>&1; PATCHED=$?
 SUITE=$(python3 /verif/tools/baseline_check.py "$T" | head -1)
-echo "$(basename $SD): demo clean exit=$CLEAN patched exit=$PATCHED suite: $SUITE"
+echo "$(basename $SD): demo clean exit=$CLEAN patched exit=$PATCHED rust=$RUST suite: $SUITE"
 cd /; rm -rf "$T"
